@@ -63,6 +63,16 @@ func (b Bonder) Bond(ctx context.Context, mutable state.Mutable, tx *chain.Trans
 		maxBalance = binary.BigEndian.Uint64(maxBalanceBytes)
 	}
 
+	// a tx that is already bonded stays covered by that bond, which a single Unbond releases
+	bondedTxID := tx.GetID()
+	alreadyBonded, err := b.db.Has(bondedTxID[:])
+	if err != nil {
+		return false, fmt.Errorf("failed to check tx fee: %w", err)
+	}
+	if alreadyBonded {
+		return true, nil
+	}
+
 	fee, err := safemath.Mul(uint64(tx.Size()), feeRate)
 	if err != nil {
 		return false, nil //nolint:nilerr
